@@ -3,10 +3,15 @@ C19 — a small model of the part of Redis the lock scripts use (core Lean only;
 
 A store is a clock (milliseconds) and a map key ↦ (value, optional absolute expiry).  Expiry is lazy, as
 in Redis: an entry whose expiry time has been reached is simply not visible to any command (`live`).
-Boundary convention: an entry written with `PX px` at time `t` is visible while `now < t + px` and gone
-from `now = t + px` on.  This is what miniredis does (`FastForward` deletes keys whose remaining TTL is
-≤ 0) and it is the convention the correspondence harness validates; real Redis keeps the key for the
-one millisecond `now = t + px` as well (documented in props/C19.json as an assumption).
+`Entry.exp` is the first instant at which the key is gone.
+
+Boundary convention — a parameter of the store (`grace`, never changed by any command):
+  * `grace = 0` (miniredis): an entry written with `PX px` at time `t` is visible while `now < t + px` and gone
+    from `now = t + px` on (`FastForward` deletes keys whose remaining TTL is ≤ 0).  This is the convention the
+    correspondence harness validates.
+  * `grace = 1` (real Redis): `keyIsExpired` tests `now > when`, so the key is still visible during the
+    millisecond `now = t + px` itself and gone from `t + px + 1` on.
+Every theorem is proved for an arbitrary `grace`; Props.lean instantiates both conventions.
 
 Every command is one atomic step of the store; a Lua script is an atomic composition of commands
 (Redis executes scripts without interleaving other commands — trusted, see DESIGN.md section 5).
@@ -21,8 +26,11 @@ structure Entry where
 structure Store where
   now : Nat
   ent : String → Option Entry
+  grace : Nat := 0      -- milliseconds a key outlives `t + px` (0 miniredis, 1 real Redis); constant
 
-def Store.empty : Store := { now := 0, ent := fun _ => none }
+def Store.emptyG (g : Nat) : Store := { now := 0, ent := fun _ => none, grace := g }
+
+def Store.empty : Store := Store.emptyG 0
 
 def Entry.liveAt (e : Entry) (now : Nat) : Bool :=
   match e.exp with
@@ -43,7 +51,7 @@ def Store.get (s : Store) (k : String) : Option String := (s.live k).map (·.val
 
 /-- `SET k v PX px` (unconditional; replaces value and TTL) -/
 def Store.setPX (s : Store) (k v : String) (px : Nat) : Store :=
-  { s with ent := upd s.ent k (some { val := v, exp := some (s.now + px) }) }
+  { s with ent := upd s.ent k (some { val := v, exp := some (s.now + px + s.grace) }) }
 
 /-- `SET k v NX PX px`: only if no live entry; `true` = written (status OK), `false` = nil reply -/
 def Store.setNXPX (s : Store) (k v : String) (px : Nat) : Store × Bool :=
@@ -56,13 +64,13 @@ def Store.del (s : Store) (k : String) : Store × Nat :=
 /-- the clock moves on by `d` ms (miniredis `FastForward`) -/
 def Store.advance (s : Store) (d : Nat) : Store := { s with now := s.now + d }
 
-/-- `PTTL k`: -2 no key, -1 no TTL, else remaining milliseconds -/
+/-- `PTTL k`: -2 no key, -1 no TTL, else remaining milliseconds (of the `px` that was set) -/
 def Store.pttl (s : Store) (k : String) : Int :=
   match s.live k with
   | none => -2
   | some e =>
     match e.exp with
     | none => -1
-    | some x => (x : Int) - (s.now : Int)
+    | some x => (x : Int) - (s.grace : Int) - (s.now : Int)
 
 end GoZero.C19
